@@ -26,6 +26,7 @@ WHAT = {
  "adjacent_links_diff_anchor": "D20: adjacent links with the same target and different anchors are merged into one link",
  "xml_comment_in_props": "D24: an XML comment inside w:rPr / w:pPr / w:tcPr raises KeyError (comment.nsmap is empty)",
  "nested_par_in_table": "D27: a text box (nested paragraph) inside a table cell splits the table; a later vMerge continuation raises IndexError",
+ "textbox_in_link": "D32: a text box anchored inside a hyperlink's run: the link text is assembled per child of the (merged) hyperlink, nested paragraphs first; html on/off merge the link's runs differently, so the ORDER of the pieces differs between html=True and html=False",
  "cell_without_par": "a table cell without a paragraph (schema-invalid) raises IndexError",
 }
 prop = sys.argv[1]
